@@ -12,11 +12,11 @@ import (
 	storetypes "cosmossdk.io/store/types"
 	"github.com/cosmos/cosmos-sdk/codec"
 	"github.com/cosmos/cosmos-sdk/runtime"
-	"github.com/cosmos/gogoproto/proto"
 	sdk "github.com/cosmos/cosmos-sdk/types"
 	authtypes "github.com/cosmos/cosmos-sdk/x/auth/types"
 	disttypes "github.com/cosmos/cosmos-sdk/x/distribution/types"
 	stakingtypes "github.com/cosmos/cosmos-sdk/x/staking/types"
+	"github.com/cosmos/gogoproto/proto"
 
 	accountedpoolkeeper "github.com/elys-network/elys/x/accountedpool/keeper"
 	accountedpooltypes "github.com/elys-network/elys/x/accountedpool/types"
@@ -27,9 +27,9 @@ import (
 	burnerkeeper "github.com/elys-network/elys/x/burner/keeper"
 	burnertypes "github.com/elys-network/elys/x/burner/types"
 	commitmentkeeper "github.com/elys-network/elys/x/commitment/keeper"
+	commitmenttypes "github.com/elys-network/elys/x/commitment/types"
 	epochskeeper "github.com/elys-network/elys/x/epochs/keeper"
 	epochstypes "github.com/elys-network/elys/x/epochs/types"
-	commitmenttypes "github.com/elys-network/elys/x/commitment/types"
 	estakingkeeper "github.com/elys-network/elys/x/estaking/keeper"
 	estakingtypes "github.com/elys-network/elys/x/estaking/types"
 	leveragelpkeeper "github.com/elys-network/elys/x/leveragelp/keeper"
@@ -128,6 +128,9 @@ type Opts struct {
 	// through an expected-keeper interface), e.g. to replace the pricing estimates by contracts.
 	PerpAmm func(real *ammkeeper.Keeper) perpetualtypes.AmmKeeper
 	LevAmm  func(real *ammkeeper.Keeper) leveragelptypes.AmmKeeper
+	// CommHooks replaces the commitment hooks (estaking, which calls into the SDK staking keeper for Eden and
+	// EdenB amounts) by the given implementation, for steps on Eden commitments. nil = the real estaking hooks.
+	CommHooks commitmenttypes.CommitmentHooks
 }
 
 func New(o Opts) *Env {
@@ -151,7 +154,11 @@ func New(o Opts) *Env {
 	e.Amm = ammkeeper.NewKeeper(cdc, ss(ammtypes.StoreKey), storetypes.NewTransientStoreKey(ammtypes.TStoreKey), Gov,
 		e.Param, e.Bank, ak, orc, e.Comm, *e.Aprof, *e.Acc, nil)
 	e.Stable = stablestakekeeper.NewKeeper(cdc, ss(stablestaketypes.StoreKey), Gov, e.Bank, e.Comm, *e.Aprof)
-	e.Comm.SetHooks(commitmentkeeper.NewMultiCommitmentHooks(e.Estaking.CommitmentHooks()))
+	if o.CommHooks != nil {
+		e.Comm.SetHooks(o.CommHooks)
+	} else {
+		e.Comm.SetHooks(commitmentkeeper.NewMultiCommitmentHooks(e.Estaking.CommitmentHooks()))
+	}
 	var perpAmm perpetualtypes.AmmKeeper = e.Amm
 	if o.PerpAmm != nil {
 		perpAmm = o.PerpAmm(e.Amm)
@@ -190,7 +197,6 @@ func New(o Opts) *Env {
 
 var _ = sdkmath.ZeroInt
 
-
 // epochsCodec: the epochs keeper wants a codec.Codec; only the BinaryCodec half is used (any
 // other method hits the nil embedded interface and panics visibly).
 type epochsCodec struct {
@@ -198,12 +204,16 @@ type epochsCodec struct {
 	B vrf.Codec
 }
 
-func (c epochsCodec) Marshal(o proto.Message) ([]byte, error)               { return c.B.Marshal(o) }
-func (c epochsCodec) MustMarshal(o proto.Message) []byte                    { return c.B.MustMarshal(o) }
-func (c epochsCodec) MarshalLengthPrefixed(o proto.Message) ([]byte, error) { return c.B.MarshalLengthPrefixed(o) }
-func (c epochsCodec) MustMarshalLengthPrefixed(o proto.Message) []byte      { return c.B.MustMarshalLengthPrefixed(o) }
-func (c epochsCodec) Unmarshal(bz []byte, ptr proto.Message) error          { return c.B.Unmarshal(bz, ptr) }
-func (c epochsCodec) MustUnmarshal(bz []byte, ptr proto.Message)            { c.B.MustUnmarshal(bz, ptr) }
+func (c epochsCodec) Marshal(o proto.Message) ([]byte, error) { return c.B.Marshal(o) }
+func (c epochsCodec) MustMarshal(o proto.Message) []byte      { return c.B.MustMarshal(o) }
+func (c epochsCodec) MarshalLengthPrefixed(o proto.Message) ([]byte, error) {
+	return c.B.MarshalLengthPrefixed(o)
+}
+func (c epochsCodec) MustMarshalLengthPrefixed(o proto.Message) []byte {
+	return c.B.MustMarshalLengthPrefixed(o)
+}
+func (c epochsCodec) Unmarshal(bz []byte, ptr proto.Message) error { return c.B.Unmarshal(bz, ptr) }
+func (c epochsCodec) MustUnmarshal(bz []byte, ptr proto.Message)   { c.B.MustUnmarshal(bz, ptr) }
 func (c epochsCodec) UnmarshalLengthPrefixed(bz []byte, ptr proto.Message) error {
 	return c.B.UnmarshalLengthPrefixed(bz, ptr)
 }
